@@ -157,6 +157,34 @@ var c18Vectors = []c18Vector{
 		}
 		return "k." + c18Ext, os.Symlink(tdir+"/decoy.kid."+c18Ext, filepath.Join(root, "k."+c18Ext))
 	}, `[{"d":"A","kid":1}]`},
+	// two steps: the escape sits behind something that is itself inside the root
+	{"$parent-of-an-in-root-parent", true, func(root, tdir string) (string, error) {
+		if err := c18Write(filepath.Join(root, "mid.yaml"), "m: 1\n$parent: "+tdir+"/decoy\n"); err != nil {
+			return "", err
+		}
+		return "in.yaml", c18Write(filepath.Join(root, "in.yaml"), "e: 1\n$parent: mid\n")
+	}, `[{"d":"A","e":1,"m":1}]`},
+	{"$parent-list-second-entry", true, func(root, tdir string) (string, error) {
+		if err := c18Write(filepath.Join(root, "ok.yaml"), "o: 1\n"); err != nil {
+			return "", err
+		}
+		return "in.yaml", c18Write(filepath.Join(root, "in.yaml"), "e: 1\n$parent: [ok, "+tdir+"/decoy]\n")
+	}, `[{"e":1,"o":1},{"d":"A","e":1}]`},
+	{"symlink-to-in-root-symlink-dir", true, func(root, tdir string) (string, error) {
+		if err := os.Symlink("../"+tdir, filepath.Join(root, "sub", "d2")); err != nil {
+			return "", err
+		}
+		if err := os.Symlink("sub/d2", filepath.Join(root, "d1")); err != nil {
+			return "", err
+		}
+		return "in.yaml", c18Write(filepath.Join(root, "in.yaml"), "e: 1\n$parent: d1/decoy\n")
+	}, `[{"d":"A","e":1}]`},
+	{"filename-parent-is-a-symlink", true, func(root, tdir string) (string, error) {
+		if err := os.Symlink(tdir+"/decoy."+c18Ext, filepath.Join(root, "base."+c18Ext)); err != nil {
+			return "", err
+		}
+		return "base.kid.yaml", c18Write(filepath.Join(root, "base.kid.yaml"), "e: 1\n")
+	}, `[{"d":"A","e":1}]`},
 	{"input-path", true, func(root, tdir string) (string, error) {
 		return tdir + "/decoy." + c18Ext, nil
 	}, `[{"d":"A"}]`},
@@ -501,7 +529,7 @@ func buildC18(tier string) *core.Plan {
 		}}
 	return &core.Plan{
 		Spaces: []core.Space{cli, lib, lib2, c18ChdirSpace()},
-		Rule: "product of 5 root spellings (., name from the parent, .. from a sub-directory, absolute, and / as a control) x 4 entry spellings x 12 escape vectors ($parent relative/from a sub-directory/absolute/wildcard, file symlink relative/absolute/chained, directory symlink via $parent and via the input path, symlink whose target name has a parent, input path with .., virtual extension) " +
+		Rule: "product of 5 root spellings (., name from the parent, .. from a sub-directory, absolute, and / as a control) x 4 entry spellings x 16 escape vectors ($parent relative/from a sub-directory/absolute/wildcard, file symlink relative/absolute/chained, directory symlink via $parent and via the input path, symlink whose target name has a parent, input path with .., virtual extension, an escaping $parent behind an in-root parent, as the second entry of a $parent list, a symlinked directory behind an in-root symlink, a symlinked file as the filename parent) " +
 			"x {escaping to an unrelated directory, escaping to a sibling directory whose name extends the root name, non-escaping twin} x 4 states of the outside decoy (content A, content B, invalid, absent); every escaping case also with the decoys in json, toml and jsonl",
 		Assumptions: []string{"an inotify watch (IN_OPEN|IN_ACCESS) on every decoy file outside the root observes opens and reads by the bkl process; stat and readlink do not raise these events and are not 'reading contents'",
 			"with -r / nothing is outside: those runs are the control showing that each vector does reach the decoy when not confined",
